@@ -50,6 +50,11 @@ Cp2(hc, T) == Add(Mul(Two, hc.c), Mul(Mul(Dec("6"), hc.d), T))
 ClausiusClapeyron(hvap, T, h, pPlus, pMinus, scale) ==
   Eq(Mul(hvap, Dec("1000")),
      Mul(Mul(R, Sq(T)), Div(Sub(Ln(pPlus), Ln(pMinus)), Mul(Two, h))), scale)
+\* the same with Richardson extrapolation of the step-h and step-2h differences (error ~ h^4)
+ClausiusClapeyronR(hvap, T, h, pPlus, pMinus, pPlus2, pMinus2, scale) ==
+  LET d1 == Div(Sub(Ln(pPlus), Ln(pMinus)), Mul(Two, h))
+      d2 == Div(Sub(Ln(pPlus2), Ln(pMinus2)), Mul(Dec("4"), h))
+  IN Eq(Mul(hvap, Dec("1000")), Mul(Mul(R, Sq(T)), Div(Sub(Mul(Dec("4"), d1), d2), Dec("3"))), scale)
 \* cooling heat = integral of Cp: Simpson's rule is exact for a cubic
 IsIntegral(q01, t0, t1, cp0, cpm, cp1, scale) ==
   Eq(q01, Mul(Div(Sub(t0, t1), Dec("6")), Add(Add(cp1, Mul(Dec("4"), cpm)), cp0)), scale)
